@@ -206,6 +206,7 @@ class Ctx:
         s.has_alg = False
         s._sol = None; s._vars = {}; s._nE = 0; s._nF = 0; s._Ekeys = set(); s._pending = []
         s.counters = {}
+        s.subst = {}; s.E_orig = None
         s.notes = []
         s.extra = {}
 
@@ -254,6 +255,78 @@ class Ctx:
         if k in s._Ekeys: return
         s._Ekeys.add(k)
         s.E.append(p)
+
+    # ---- elimination of unknown atoms that the equations determine linearly (a sound preprocessing: consequences of E)
+    def apply_subst(s, p):
+        if not s.subst: return p
+        if not any(a in s.subst for m in p.t for a, _ in m): return p
+        tot = Poly()
+        for m, c in p.t.items():
+            term = Poly({(): c})
+            for a, e in m:
+                if a in s.subst:
+                    if e < 0: return None
+                    for _ in range(e): term = term * s.subst[a]
+                else:
+                    term = term * Poly({((a, e),): G1})
+            tot = tot + term
+        return s.reduce(tot)
+
+    def simplify(s):
+        """Gaussian elimination on the equations that are linear in single atoms with constant coefficients; only atoms flagged
+        'unknown' are eliminated. Rebuilds the solver state."""
+        at = s.atoms
+        if s.E_orig is None: s.E_orig = list(s.E)
+        cur = list(s.E)
+        for _ in range(50):
+            progress = False
+            nxt = []
+            for p in cur:
+                q = s.apply_subst(p)
+                if q is None: nxt.append(p); continue
+                if q.is_zero(): continue
+                # linear in the unknown atoms: every monomial holds at most one unknown atom, with exponent 1
+                def unk(m): return [(a, e) for a, e in m if at.unknown[a]]
+                lin = all(len(unk(m)) == 0 or (len(unk(m)) == 1 and unk(m)[0][1] == 1) for m in q.t)
+                pick = None
+                if lin:
+                    groups = {}
+                    for m, c in q.t.items():
+                        u = unk(m)
+                        if u: groups.setdefault(u[0][0], []).append((m, c))
+                    for a in sorted(groups, reverse=True):
+                        if at.unit[a] or at.sq[a] is not None or at.conj[a] not in (None, a): continue
+                        if len(groups[a]) != 1: continue          # coefficient must be a single term
+                        (m, c), = groups[a]
+                        co = tuple((x, e) for x, e in m if x != a)
+                        if all(at.inv[x] and not at.unknown[x] for x, _ in co):
+                            pick = (a, m, c, co); break
+                if pick is not None:
+                    a, m, c, co = pick
+                    rest = Poly({mm: v for mm, v in q.t.items() if mm != m})
+                    inv_co = Poly({tuple((x, -e) for x, e in co): G(-1) * c.inv()})
+                    expr = s.reduce(rest * inv_co)
+                    if len(expr.t) > 16:
+                        nxt.append(q); continue
+                    s.subst[a] = expr
+                    for b in list(s.subst):
+                        if b != a:
+                            r = s.apply_subst(s.subst[b])
+                            if r is not None: s.subst[b] = r
+                    progress = True
+                else:
+                    nxt.append(q)
+            cur = nxt
+            if not progress: break
+        seen = set(); E2 = []
+        for p in cur:
+            q = s.apply_subst(p)
+            if q is None: q = p
+            if q.is_zero(): continue
+            k = q.key()
+            if k not in seen: seen.add(k); E2.append(q)
+        s.E = E2; s._Ekeys = seen
+        s._sol = None; s._vars = {}; s._nE = 0; s._nF = 0; s._pending = []
 
     # ---- linear abstraction
     def _var(s, m):
@@ -310,7 +383,7 @@ class Ctx:
             s._sol.add(*s._pending); s._pending = []
         return s._sol
 
-    def saturate(s, goal_monos, rounds=1, extra_mults=(), conj=False, cap=4000):
+    def saturate(s, goal_monos, rounds=1, extra_mults=(), conj=False, cap=30000):
         """products mult*e (e in E) chosen so that a monomial of e lands on a goal monomial"""
         base = list(s.E)
         if conj:
@@ -360,6 +433,9 @@ class Ctx:
 
     def entails_zero(s, p, rounds=0, extra_mults=(), conj=False):
         p = s.reduce(p)
+        if s.subst:
+            q = s.apply_subst(p)
+            if q is not None: p = q
         if p.is_zero(): return True
         sol = s._solver()
         sol.push()
